@@ -98,6 +98,8 @@ type Flow struct {
 	Effect func(label string, call *ast.CallExpr, st Facts)
 	// RecvLabel names channel receives that count as events ("called:<label>").
 	RecvLabel func(x *ast.UnaryExpr) string
+	// AssignHook is called for every assignment to a plain variable (rhs nil for `var x T`).
+	AssignHook func(v *types.Var, rhs ast.Expr, st Facts)
 	// Inline: calls to module functions that are not labelled contribute the
 	// "called:" facts that hold at every normal exit of the callee (depth-limited).
 	Inline bool
@@ -395,6 +397,21 @@ func (m *Flow) transfer(node ast.Node, st Facts, rec bool) {
 func defPrefix(v *types.Var) string { return fmt.Sprintf("def:%s#%d=", v.Name(), v.Pos()) }
 
 func (m *Flow) assign(lhs, rhs []ast.Expr, st Facts) {
+	if m.AssignHook != nil {
+		for i, l := range lhs {
+			if id, ok := l.(*ast.Ident); ok && id.Name != "_" {
+				if v, ok := m.obj(id).(*types.Var); ok {
+					var r ast.Expr
+					if len(rhs) == len(lhs) {
+						r = rhs[i]
+					} else if len(rhs) == 1 {
+						r = rhs[0]
+					}
+					m.AssignHook(v, r, st)
+				}
+			}
+		}
+	}
 	for _, l := range lhs {
 		if id, ok := l.(*ast.Ident); ok {
 			if v, ok := m.obj(id).(*types.Var); ok {
